@@ -27,7 +27,7 @@ def source_hash():
 def produce(c, binhash=None):
     binhash = source_hash()
     quick = c.tier == "quick"
-    states, steps = (8, 16) if quick else (120, 40)
+    states, steps = (8, 16) if quick else (80, 40)
 
     def producer(d):
         wd = os.path.join(d, "wd")
